@@ -1,5 +1,6 @@
 import HdVerif.Model.Tiling
 import HdVerif.Generated.T4t
+import HdVerif.Generated.T4fv
 /-! C04: segment-aware reads of a tiled image — the temporary channel table that is joined with the frame table
 (`_prepare_channel_tables`, `_generate_temp_tables`), the channel axis of the output, and HISTORIES of reads on one object.
 
@@ -190,5 +191,21 @@ def tileThenHistory {α} [BEq α] (z : α) (Ms : List (Int × Img α)) (R C tr t
   match tiledSegTable z Ms R C tr tc full omitEmpty with
   | .error e => .error e
   | .ok (lut, frames) => .ok (runHistory z lut frames R C tr tc full true steps none).1
+
+/-- `Image.get_volume` on a tiled image, pixel part: the request is normalised once to 0-based indices (regenerated call flags,
+`Gen.volumeStdCall`) and the results are handed to the total-pixel-matrix read as indices (`Gen.volumeTpmCall`) -/
+def readVolumeRegion {α} (z : α) (lut : List LutRow) (frames : List (Img α)) (rows cols th tw : Int)
+    (chan : Option Int) (rs re cs ce : Option Int) (asIdx full allowMissing : Bool) : Except ErrKind (Int × Int × Img α) :=
+  match volumeStdCall asIdx with
+  | .error e => .error e
+  | .ok (ai, oi) =>
+    match stdRowColIndices rs re cs ce rows cols ai oi with
+    | .error e => .error e
+    | .ok (a, b, c, d) =>
+      match volumeTpmCall a b c d with
+      | .error e => .error e
+      | .ok (a', b', c', d', ai') =>
+        readRegion z lut frames rows cols th tw chan (some a') (some b') (some c') (some d') ai' full allowMissing
+
 
 end HdVerif.Tiling
